@@ -76,9 +76,9 @@ def audit(pid):
     out = p.stdout + p.stderr
     res, problems = {}, []
     # outputs: "'Pyn.C03.foo' depends on axioms: [propext, Quot.sound]" or "... does not depend on any axioms"
-    for m in re.finditer(r"'([^']+)' depends on axioms: \[([^\]]*)\]", out, flags=re.S):
+    for m in re.finditer(r"'(\S+?)' depends on axioms: \[([^\]]*)\]", out, flags=re.S):
         res[m.group(1)] = sorted(a.strip() for a in m.group(2).replace("\n", " ").split(",") if a.strip())
-    for m in re.finditer(r"'([^']+)' does not depend on any axioms", out):
+    for m in re.finditer(r"'(\S+?)' does not depend on any axioms", out):
         res[m.group(1)] = []
     for n in names:
         full = (nsname + "." + n) if nsname else n
